@@ -125,6 +125,133 @@ def spec_matrix(dims, targets, M):
     return out
 
 
+
+# ------------------------------------------------------------------------------------------
+# observation points that reach expand_operator through (mutable) objects
+def gate_qobj_variant():
+    """How Gate.get_qobj(num_qubits, dims) calls expand_operator in this tree (read with ast):
+    (dims defaults to [2]*num_qubits, N=num_qubits is passed)."""
+    path = os.path.join(paths.REPO, "src", "qutip_qip", "operations", "gateclass.py")
+    tree = ast.parse(open(path).read())
+    for cls in ast.walk(tree):
+        if isinstance(cls, ast.ClassDef) and cls.name == "Gate":
+            for fn in cls.body:
+                if isinstance(fn, ast.FunctionDef) and fn.name == "get_qobj":
+                    dims_default = any(isinstance(n, ast.Assign) and any(isinstance(t, ast.Name) and t.id == "dims"
+                                                                          for t in n.targets) for n in ast.walk(fn))
+                    passes_n = any(isinstance(n, ast.Call) and getattr(n.func, "id", None) == "expand_operator"
+                                   and any(k.arg == "N" for k in n.keywords) for n in ast.walk(fn))
+                    for n in ast.walk(fn):     # dims=<something other than the bare name> also counts as a default
+                        if isinstance(n, ast.Call) and getattr(n.func, "id", None) == "expand_operator":
+                            for k in n.keywords:
+                                if k.arg == "dims" and not (isinstance(k.value, ast.Name) and k.value.id == "dims"):
+                                    dims_default = True
+                    return dims_default, passes_n
+    from vlib.core import TranslatorError
+    raise TranslatorError("Gate.get_qobj not found in operations/gateclass.py")
+
+
+def hist_oper(od, oid):
+    """operator object number `oid` on subsystems `od`: entries identify their position and the object"""
+    import qutip
+    D = int(np.prod(od))
+    M = np.array([[1 + a * D + b + 1000 * oid for b in range(D)] for a in range(D)], dtype=complex)
+    return qutip.Qobj(M, dims=[list(od), list(od)]), M
+
+
+def targ_value(tk, tv):
+    return None if tk == "none" else (tv if tk == "int" else list(tv))
+
+
+def targ_str(tk, tv):
+    return "none" if tk == "none" else ("i%d" % tv if tk == "int" else "l" + ",".join(map(str, tv)))
+
+
+HIST_ENTRIES = {"evo": 1, "pulse-ideal": 1, "pulse-evo": 1, "pulse-noisy": 3, "drift": 2}
+HIST_OUTPUTS = {"evo": [[0]], "pulse-ideal": [[0]], "pulse-evo": [[0]], "pulse-noisy": [[0, 1], [2]], "drift": [[0, 1]]}
+
+
+class HistObject:
+    """One real object of an entry point, driven through a history of public assignments and requests."""
+
+    def __init__(self, entry, elems):
+        from qutip_qip.pulse import Pulse, Drift, _EvoElement
+        self.entry = entry
+        q = [None if e["od"] is None else hist_oper(e["od"], e["oid"])[0] for e in elems]
+        t = [targ_value(e["tk"], e["tv"]) for e in elems]
+        if entry == "evo":
+            self.obj = _EvoElement(q[0], t[0])
+        elif entry in ("pulse-ideal", "pulse-evo"):
+            self.obj = Pulse(q[0], t[0], tlist=None, coeff=True)
+        elif entry == "pulse-noisy":
+            self.obj = Pulse(q[0], t[0], tlist=None, coeff=True)
+            self.obj.add_coherent_noise(q[1], t[1], coeff=True)
+            self.obj.add_lindblad_noise(q[2], t[2], coeff=True)
+        elif entry == "drift":
+            self.obj = Drift()
+            for qi, ti in zip(q, t):
+                self.obj.add_drift(qi, ti)
+
+    def _elem(self, i):
+        o = self.obj
+        if self.entry == "evo":
+            return o
+        if self.entry == "drift":
+            return o.drift_hamiltonians[i]
+        return o if i == 0 else (o.coherent_noise[0] if i == 1 else o.lindblad_noise[0])   # Pulse: public setters
+
+    def set_targets(self, i, tk, tv):
+        self._elem(i).targets = targ_value(tk, tv)
+
+    def set_oper(self, i, od, oid):
+        self._elem(i).qobj = None if od is None else hist_oper(od, oid)[0]
+
+    def get(self, dims):
+        """-> ("ok", [Qobj, ...]) one per output of the entry point, or (error class, None)"""
+        import contextlib, io
+        o, e = self.obj, self.entry
+        with warnings.catch_warnings(), contextlib.redirect_stdout(io.StringIO()):
+            warnings.simplefilter("ignore")
+            try:
+                if e == "evo":
+                    return "ok", [o.get_qobj(dims)]
+                if e == "pulse-ideal":
+                    return "ok", [o.get_ideal_qobj(dims)]
+                if e == "pulse-evo":
+                    return "ok", [o.get_ideal_qobjevo(dims)(0.0)]
+                if e == "pulse-noisy":
+                    qu, c = o.get_noisy_qobjevo(dims)
+                    return "ok", [qu(0.0), c[0](0.0)]
+                if e == "drift":
+                    return "ok", [o.get_ideal_qobjevo(dims)(0.0)]
+            except Exception as ex:
+                return classify_exc(ex), None
+
+
+def hist_wellformed(dims, cur):
+    """is the request of one element well-formed for register dims (independent of the models)"""
+    if cur["od"] is None:
+        return len(dims) > 0, [0]
+    od = cur["od"]
+    ts = list(range(len(od))) if cur["tk"] == "none" else ([cur["tv"]] if cur["tk"] == "int" else list(cur["tv"]))
+    return (len(ts) == len(od) and len(set(ts)) == len(ts) and all(0 <= t < len(dims) for t in ts)
+            and [dims[t] for t in ts] == list(od)), ts
+
+
+GATE_KINDS = {
+    "X": dict(k=1, c=0), "RX": dict(k=1, c=0, arg=0.7), "CNOT": dict(k=2, c=1), "SWAP": dict(k=2, c=0),
+    "CPHASE": dict(k=2, c=1, arg=0.3), "TOFFOLI": dict(k=3, c=2),
+}
+
+
+def make_gate(name, controls, targets):
+    from qutip_qip.operations import Gate
+    kw = {}
+    if "arg" in GATE_KINDS[name]:
+        kw["arg_value"] = GATE_KINDS[name]["arg"]
+    return Gate(name, targets=list(targets), controls=(list(controls) if controls else None), **kw)
+
+
 def all_cases(maxN, alphabet=(2, 3, 4), maxk=3):
     for N in range(1, maxN + 1):
         for dims in itertools.product(alphabet, repeat=N):
@@ -608,6 +735,297 @@ class C08(PropertyCheck):
                 res.disagree({"outside-model": case}, "an exception", "a value", "malformed request outside the model returned a value",
                              {"kind": "outside", "case": case})
 
+
+    # ---------------------------------------------------------------------------------
+    # observation points behind mutable objects (Model/EmbedObj.lean): histories on ONE object
+    DIMS_POOL = [[2, 2], [2, 3], [3, 2], [2, 2, 2], [2, 3, 2], [3, 2, 2], [2, 2, 3], 2, 3]
+    OD_POOL = [[2], [3], [2, 2], [2, 3], [3, 2]]
+
+    @staticmethod
+    def _placements(dims, od):
+        d = [2] * dims if isinstance(dims, int) else list(dims)
+        return [list(t) for t in itertools.permutations(range(len(d)), len(od)) if [d[x] for x in t] == list(od)]
+
+    def _rand_targ(self, rng, dims, od, p_valid=0.8):
+        pl = self._placements(dims, od)
+        if pl and rng.random() < p_valid:
+            ts = rng.choice(pl)
+        else:
+            n = dims if isinstance(dims, int) else len(dims)
+            ts = [rng.randint(-1, n) for _ in od]
+        if len(ts) == 1 and rng.random() < 0.3:
+            return "int", ts[0]
+        return "list", ts
+
+    def _rand_elem(self, rng, dims, oid, allow_none=True):
+        if allow_none and rng.random() < 0.12:
+            return {"od": None, "tk": "none", "tv": None, "oid": oid}
+        ods = [od for od in self.OD_POOL if self._placements(dims, od)] or self.OD_POOL
+        od = rng.choice(ods)
+        tk, tv = self._rand_targ(rng, dims, od, 0.9)
+        return {"od": od, "tk": tk, "tv": tv, "oid": oid}
+
+    def _history_cases(self, ctx, n_random):
+        rng = ctx.rng
+        # systematic: evaluate, re-target (move / reorder), evaluate, replace the operator, evaluate, other dims, back
+        for entry, ne in HIST_ENTRIES.items():
+            for dims in self.DIMS_POOL:
+                others = [d for d in self.DIMS_POOL if d != dims]
+                for i in range(ne):
+                    for od in self.OD_POOL:
+                        pl = self._placements(dims, od)
+                        pairs = [(a, b) for a in pl for b in pl if a != b]
+                        rng.shuffle(pairs)
+                        for a, b in pairs[:2]:
+                            elems = [self._rand_elem(rng, dims, 10 + j, allow_none=False) for j in range(ne)]
+                            for e in elems:      # the other elements: valid placements
+                                e["tk"], e["tv"] = "list", rng.choice(self._placements(dims, e["od"]))
+                            elems[i] = {"od": od, "tk": "list", "tv": a, "oid": 1}
+                            d2 = rng.choice(others)
+                            ops = [["g", dims], ["t", i, "list", b], ["g", dims], ["q", i, od, 2], ["g", dims],
+                                   ["g", d2], ["g", dims], ["t", i, "list", a], ["g", dims]]
+                            yield {"kind": "history", "entry": entry, "elems": elems, "ops": ops}
+        # random histories
+        for _ in range(n_random):
+            entry = rng.choice(list(HIST_ENTRIES))
+            ne = HIST_ENTRIES[entry]
+            dims = rng.choice(self.DIMS_POOL)
+            elems = [self._rand_elem(rng, dims, 10 + j) for j in range(ne)]
+            cur = [dict(e) for e in elems]
+            ops, oid = [["g", dims]], 20
+            for _k in range(rng.randint(3, 8)):
+                u = rng.random()
+                i = rng.randrange(ne)
+                if u < 0.4:
+                    if rng.random() < 0.25:
+                        dims = rng.choice(self.DIMS_POOL)
+                    ops.append(["g", dims])
+                elif u < 0.8 and cur[i]["od"] is not None:
+                    tk, tv = self._rand_targ(rng, dims, cur[i]["od"])
+                    cur[i].update(tk=tk, tv=tv)
+                    ops.append(["t", i, tk, tv])
+                else:
+                    oid += 1
+                    e = self._rand_elem(rng, dims, oid)
+                    if e["od"] is not None and cur[i]["od"] is not None and rng.random() < 0.6:
+                        e["od"] = cur[i]["od"]           # same shape, another operator object: targets stay
+                        ops.append(["q", i, e["od"], oid])
+                        cur[i].update(od=e["od"], oid=oid)
+                    else:
+                        ops.append(["q", i, e["od"], oid])
+                        cur[i].update(od=e["od"], oid=oid)
+                        if e["od"] is not None:
+                            ops.append(["t", i, e["tk"], e["tv"]])
+                            cur[i].update(tk=e["tk"], tv=e["tv"])
+            ops.append(["g", dims])
+            yield {"kind": "history", "entry": entry, "elems": elems, "ops": ops}
+
+    @staticmethod
+    def _hist_line(w):
+        def od_s(od):
+            return "none" if od is None else ",".join(map(str, od))
+        es = ";".join(f"{od_s(e['od'])}:{targ_str(e['tk'], e['tv'])}:{e['oid']}" for e in w["elems"])
+        ops = []
+        for op in w["ops"]:
+            if op[0] == "g":
+                ops.append("g:" + ("n%d" % op[1] if isinstance(op[1], int) else ",".join(map(str, op[1]))))
+            elif op[0] == "t":
+                ops.append(f"t:{op[1]}:{targ_str(op[2], op[3])}")
+            else:
+                ops.append(f"q:{op[1]}:{od_s(op[2])}:{op[3]}")
+        return f"hist elems={es} ops={';'.join(ops)}"
+
+    def _histories(self, ctx, res):
+        drv = ctx.driver("drv_embed")
+        cases = list(self._history_cases(ctx, 1500 if ctx.thorough else 400))
+        outs = drv.run([self._hist_line(w) for w in cases])
+        # the operators the model says are placed: (register, targets) -> cells of the flat model
+        need = {}
+        parsed = []
+        for w, o in zip(cases, outs):
+            groups = []
+            for g in (o[3:].strip().split("|") if o.startswith("ok") else []):
+                items = []
+                for it in g.split("/"):
+                    if it.startswith("!"):
+                        items.append(("err", it[1:]))
+                    else:
+                        ds, ts, oid = it.split(";")
+                        reg = tuple(int(x) for x in ds.split(",") if x)
+                        nn = tuple(int(x) for x in ts.split(",") if x)
+                        need[(reg, nn)] = None
+                        items.append(("ok", reg, nn, int(oid)))
+                groups.append(items)
+            parsed.append(groups)
+        keys = list(need)
+        fo = drv.run([f"flat dims={','.join(map(str, d))} targets={','.join(map(str, t))}" for d, t in keys])
+        need = dict(zip(keys, fo))
+        n_gets = 0
+        for w, groups in zip(cases, parsed):
+            n_get = sum(1 for op in w["ops"] if op[0] == "g")
+            inp = {"history": {"entry": w["entry"], "elems": w["elems"], "ops": w["ops"]}}
+            moved = any(op[0] != "g" for op in w["ops"])
+            res.case(inp, nontrivial=moved, tags=["history", f"entry={w['entry']}", f"gets={n_get}"])
+            if len(groups) != n_get:
+                res.disagree(inp, "one answer per request", len(groups), "history model output", w)
+                continue
+            obj = HistObject(w["entry"], w["elems"])
+            cur_od = {i: (e["od"], e["oid"]) for i, e in enumerate(w["elems"])}
+            gi = 0
+            for op in w["ops"]:
+                if op[0] == "t":
+                    obj.set_targets(op[1], op[2], op[3])
+                    continue
+                if op[0] == "q":
+                    obj.set_oper(op[1], op[2], op[3])
+                    cur_od[op[1]] = (op[2], op[3])
+                    continue
+                items = groups[gi]
+                gi += 1
+                n_gets += 1
+                st, rs = obj.get(op[1])
+                errs = [it[1] for it in items if it[0] == "err"]
+                model = errs[0] if errs else "ok"        # elements are evaluated in order; the first failure raises
+                if st != model:
+                    res.disagree(dict(inp, request=gi - 1), model, st, "verdict of a request in a history", w)
+                    break
+                if st != "ok":
+                    continue
+                mats = [(it[1], it[2], it[3]) for it in items]
+                bad = False
+                for out_i, comp in enumerate(HIST_OUTPUTS[w["entry"]]):
+                    reg = list(mats[comp[0]][0])
+                    tot = int(np.prod(reg))
+                    E = np.zeros((tot, tot), dtype=complex)
+                    for ei in comp:
+                        r_, nn, oid = mats[ei]
+                        od = cur_od[ei][0]
+                        if od is None:
+                            continue                       # qobj None: the zero operator
+                        if cur_od[ei][1] != oid:
+                            res.disagree(dict(inp, request=gi - 1), cur_od[ei][1], oid, "operator object placed by the model", w)
+                            bad = True
+                            break
+                        body = need[(r_, nn)]
+                        E = E + cells_matrix(body[3:].split("|")[1], tot, hist_oper(od, oid)[1])
+                    if bad:
+                        break
+                    r = rs[out_i]
+                    if r.dims != [reg, reg] or r.full().shape != E.shape or not np.array_equal(r.full(), E):
+                        res.disagree(dict(inp, request=gi - 1, output=out_i), {"register": reg, "placed": [mats[ei][1:] for ei in comp]},
+                                     r.dims, "operator returned by a request in a history on one object", w)
+                        bad = True
+                        break
+                if bad:
+                    break
+        res.notes.append(f"histories on one object ({', '.join(HIST_ENTRIES)}): {len(cases)} histories, {n_gets} requests; "
+                         "re-targeting through the public setters (move / reorder), replacing the operator (same or other shape, None), "
+                         "changing dims between requests; every returned operator compared entry by entry with the flat model "
+                         "placed by Model/EmbedObj.lean on the current fields")
+
+    def _gate_cases(self, ctx, n_random):
+        rng = ctx.rng
+        dd, pn = gate_qobj_variant()
+        for _ in range(n_random):
+            name = rng.choice(list(GATE_KINDS))
+            k, c = GATE_KINDS[name]["k"], GATE_KINDS[name]["c"]
+            n = rng.randint(k, 4)
+            dims = [2] * n
+            for j in range(n):                 # a non-qubit spectator now and then
+                if rng.random() < 0.2:
+                    dims[j] = 3
+            def pick():
+                q = [j for j in range(n) if dims[j] == 2]
+                if len(q) >= k and rng.random() < 0.85:
+                    return rng.sample(q, k)
+                return [rng.randint(0, n) for _ in range(k)]
+            a = pick()
+            ops = []
+            for _k in range(rng.randint(2, 5)):
+                u = rng.random()
+                if u < 0.5:
+                    form = rng.choice(["dims", "dims", "n", "none", "both"])
+                    if form in ("n", "none", "both") and 3 in dims and rng.random() < 0.7:
+                        form = "dims"
+                    if not (dd or pn) and form != "dims" and rng.random() < 0.8:
+                        form = "dims"             # without a default for dims every such request is refused
+                    ops.append(["g", n if form in ("n", "both") else None, list(dims) if form in ("dims", "both") else None])
+                else:
+                    b = pick()
+                    ops.append(["set", b[:c], b[c:]])
+            ops.append(["g", None, list(dims)])
+            yield {"kind": "gate", "name": name, "controls": a[:c], "targets": a[c:], "ops": ops}
+
+    def _gates(self, ctx, res):
+        drv = ctx.driver("drv_embed")
+        dd, pn = gate_qobj_variant()
+        cases = list(self._gate_cases(ctx, 600 if ctx.thorough else 200))
+        reqs = []
+        for w in cases:
+            cur = (list(w["controls"]), list(w["targets"]))
+            for op in w["ops"]:
+                if op[0] == "set":
+                    cur = (list(op[1]), list(op[2]))
+                    continue
+                allq = cur[0] + cur[1]
+                nq = op[1] if op[1] is not None else (max(allq) + 1 if allq else 0)
+                dims = op[2] if op[2] is not None else ([2] * nq if dd else None)
+                N = nq if pn else None
+                reqs.append((w, allq, N, dims))
+        lines = [f"args n={'none' if N is None else N} dims={'none' if d is None else ','.join(map(str, d))} "
+                 f"t=l{','.join(map(str, a))} opl={','.join(['2'] * len(a))} opr={','.join(['2'] * len(a))} cyclic=0"
+                 for _w, a, N, d in reqs]
+        outs = drv.run(lines)
+        pl = {}
+        for o in outs:
+            if o.startswith("ok "):
+                ds, ts = o[3:].split(";")
+                pl[(tuple(map(int, ds.split(","))), tuple(map(int, ts.split(","))))] = None
+        keys = list(pl)
+        pl = dict(zip(keys, drv.run([f"flat dims={','.join(map(str, d))} targets={','.join(map(str, t))}" for d, t in keys])))
+        it = iter(outs)
+        for w in cases:
+            g = make_gate(w["name"], w["controls"], w["targets"])
+            M = g.get_compact_qobj().full()
+            inp = {"gate-history": {k: w[k] for k in ("name", "controls", "targets", "ops")}}
+            res.case(inp, nontrivial=True, tags=["gate-history", f"gate={w['name']}"])
+            done = False
+            for op in w["ops"]:
+                if op[0] == "set":
+                    g.controls = list(op[1]) if op[1] else None
+                    g.targets = list(op[2])
+                    continue
+                o = next(it)
+                if done:
+                    continue
+                kw = {}
+                if op[1] is not None:
+                    kw["num_qubits"] = op[1]
+                if op[2] is not None:
+                    kw["dims"] = list(op[2])
+                with warnings.catch_warnings():
+                    warnings.simplefilter("ignore")
+                    try:
+                        st, r = "ok", g.get_qobj(**kw)
+                    except Exception as ex:
+                        st, r = classify_exc(ex), None
+                model = "ok" if o.startswith("ok") else o.replace("err ", "")
+                if st != model:
+                    res.disagree(dict(inp, request=kw), model, st, "verdict of Gate.get_qobj", w)
+                    done = True
+                    continue
+                if st == "ok":
+                    ds, ts = o[3:].split(";")
+                    reg, nn = list(map(int, ds.split(","))), list(map(int, ts.split(",")))
+                    E = cells_matrix(pl[(tuple(reg), tuple(nn))][3:].split("|")[1], int(np.prod(reg)), M)
+                    if r.dims != [reg, reg] or r.full().shape != E.shape or not np.allclose(r.full(), E, atol=0, rtol=0):
+                        res.disagree(dict(inp, request=kw), {"register": reg, "targets": nn}, r.dims,
+                                     "operator returned by Gate.get_qobj", w)
+                        done = True
+        res.notes.append(f"Gate.get_qobj(num_qubits, dims) on {len(cases)} gate objects with re-assigned controls/targets between "
+                         f"requests ({len(reqs)} requests), mapped to Model/EmbedArgs as read from the tree "
+                         f"(dims default [2]*num_qubits: {dd}, N passed: {pn})")
+
     def correspondence(self, ctx, res):
         rng = ctx.rng
         self._conventions(ctx, res, 4 if ctx.thorough else 3)
@@ -615,6 +1033,8 @@ class C08(PropertyCheck):
         self._args_exhaustive(ctx, res)
         self._dtype_sweep(ctx, res)
         self._outside(ctx, res)
+        self._histories(ctx, res)
+        self._gates(ctx, res)
         self._validation_exhaustive(ctx, res, 3)
         exhaustN = 4 if ctx.thorough else 3
         nrows = 8 if ctx.thorough else 6
@@ -695,6 +1115,10 @@ class C08(PropertyCheck):
             return (v == "ok"), f"{w['case']}: {v}"
         elif w["kind"] == "args":
             return self._oracle_args(w)
+        elif w["kind"] == "history":
+            return self._oracle_history(w)
+        elif w["kind"] == "gate":
+            return self._oracle_gate(w)
         else:
             dims, ts, od = w["dims"], w["targets"], w["opdims"]
             N = len(dims)
@@ -748,6 +1172,92 @@ class C08(PropertyCheck):
                 return True, f"operator {j} is not the specified embedding at targets {tj} on {reg}"
         return False, "every returned operator is the specified embedding"
 
+    def _oracle_history(self, w):
+        """C08's statement at the observation points behind mutable objects, judged with the specification written in
+        numpy on the fields the object carries at the time of each request (bookkeeping here, no model): a request whose
+        every element is well-formed must return the specified embedding(s) of the CURRENT operators at the CURRENT
+        targets; any other request must not return a value."""
+        obj = HistObject(w["entry"], w["elems"])
+        cur = [dict(e) for e in w["elems"]]
+        k = -1
+        for pos_, op in enumerate(w["ops"]):
+            if op[0] == "t":
+                obj.set_targets(op[1], op[2], op[3])
+                cur[op[1]].update(tk=op[2], tv=op[3])
+                continue
+            if op[0] == "q":
+                obj.set_oper(op[1], op[2], op[3])
+                cur[op[1]].update(od=op[2], oid=op[3])
+                continue
+            k += 1
+            dims = [2] * op[1] if isinstance(op[1], int) else list(op[1])
+            wf = [hist_wellformed(dims, c) for c in cur]
+            st, rs = obj.get(op[1])
+            where = f"request {k} ({w['entry']}, dims={op[1]}) after {sum(1 for o in w['ops'][:pos_] if o[0] != 'g')} assignment(s)"
+            if not all(f for f, _ in wf):
+                if st == "ok":
+                    return True, where + ": malformed request returned a value"
+                continue
+            if st != "ok":
+                return True, where + f": well-formed request rejected ({st})"
+            for out_i, comp in enumerate(HIST_OUTPUTS[w["entry"]]):
+                tot = int(np.prod(dims))
+                E = np.zeros((tot, tot), dtype=complex)
+                for ei in comp:
+                    if cur[ei]["od"] is not None:
+                        E = E + spec_matrix(dims, wf[ei][1], hist_oper(cur[ei]["od"], cur[ei]["oid"])[1])
+                r = rs[out_i]
+                if r.dims != [dims, dims]:
+                    return True, where + f": result has dims {r.dims[0]}"
+                if not np.array_equal(r.full(), E):
+                    pos = np.argwhere(r.full() != E)[0].tolist()
+                    tg = [(cur[ei]["tk"], cur[ei]["tv"]) for ei in comp]
+                    return True, where + f": output {out_i} is not the embedding at the current targets {tg} (element {pos})"
+        return False, "every request returned the specified embedding of the current fields"
+
+    def _oracle_gate(self, w):
+        """Gate.get_qobj(num_qubits, dims): the gate's compact operator on controls + targets (current values) and the
+        identity elsewhere; without dims the register is all qubits ([2] * num_qubits, num_qubits defaulting to the
+        smallest register containing the gate), as documented."""
+        g = make_gate(w["name"], w["controls"], w["targets"])
+        M = g.get_compact_qobj().full()
+        cur = (list(w["controls"]), list(w["targets"]))
+        for k, op in enumerate(w["ops"]):
+            if op[0] == "set":
+                g.controls = list(op[1]) if op[1] else None
+                g.targets = list(op[2])
+                cur = (list(op[1]), list(op[2]))
+                continue
+            allq = cur[0] + cur[1]
+            kw = {}
+            if op[1] is not None:
+                kw["num_qubits"] = op[1]
+            if op[2] is not None:
+                kw["dims"] = list(op[2])
+            with warnings.catch_warnings():
+                warnings.simplefilter("ignore")
+                try:
+                    st, r = "ok", g.get_qobj(**kw)
+                except Exception as ex:
+                    st, r = classify_exc(ex), None
+            if op[2] is not None and op[1] is not None and op[1] != len(op[2]):
+                continue                                   # inconsistent request: not judged
+            nq = op[1] if op[1] is not None else (max(allq) + 1 if allq and min(allq) >= 0 else 0)
+            dims = list(op[2]) if op[2] is not None else [2] * nq
+            wf = (len(set(allq)) == len(allq) and all(0 <= t < len(dims) for t in allq) and all(dims[t] == 2 for t in allq))
+            where = f"{w['name']} controls={cur[0]} targets={cur[1]} get_qobj({kw})"
+            if not wf:
+                if st == "ok":
+                    return True, where + ": malformed request returned a value"
+                continue
+            if st != "ok":
+                return True, where + f": well-formed request rejected ({st})"
+            if r.dims != [dims, dims]:
+                return True, where + f": result has dims {r.dims[0]}, register is {dims}"
+            if not np.array_equal(r.full(), spec_matrix(dims, allq, M)):
+                return True, where + ": not the gate's operator on its current qubits"
+        return False, "every request returned the specified embedding"
+
     def _random_witness(self, rng):
         u = rng.random()
         if u < 0.15:
@@ -790,13 +1300,57 @@ class C08(PropertyCheck):
                 yield w, d
             if time.time() - t0 > budget_s:
                 return
+        for w in self._object_witnesses(ctx, 300, 200):
+            f, d = self.oracle_replay(ctx, w)
+            if f:
+                w = self._shrink(ctx, w)
+                yield w, self.oracle_replay(ctx, w)[1]
+            if time.time() - t0 > budget_s:
+                return
         while time.time() - t0 < budget_s:
             w = self._random_witness(ctx.rng)
             f, d = self.oracle_replay(ctx, w)
             if f:
                 yield w, d
 
+    def _object_witnesses(self, ctx, n_hist, n_gate):
+        dd, pn = gate_qobj_variant()
+        hs = list(self._history_cases(ctx, n_hist))
+        ctx.rng.shuffle(hs)
+        for w in hs[:n_hist]:
+            yield w
+        for w in self._gate_cases(ctx, n_gate):
+            # a tree whose Gate.get_qobj has no default for dims refuses every request without dims (finding C08-2):
+            # those requests are judged by the correspondence against that variant, not by this sweep
+            if not (dd or pn) and any(op[0] == "g" and op[2] is None for op in w["ops"]):
+                continue
+            yield w
+
+    def _shrink(self, ctx, w):
+        """drop steps of a failing history / gate history while it keeps failing"""
+        if w.get("kind") not in ("history", "gate"):
+            return w
+        w = dict(w, ops=list(w["ops"]))
+        changed = True
+        while changed:
+            changed = False
+            for i in range(len(w["ops"])):
+                cand = dict(w, ops=w["ops"][:i] + w["ops"][i + 1:])
+                try:
+                    f, _d = self.oracle_replay(ctx, cand)
+                except Exception:
+                    f = False
+                if f:
+                    w, changed = cand, True
+                    break
+        return w
+
     def oracle_always(self, ctx):
+        for w in self._object_witnesses(ctx, 60, 40):
+            f, d = self.oracle_replay(ctx, w)
+            if f:
+                w = self._shrink(ctx, w)
+                yield w, self.oracle_replay(ctx, w)[1]
         for _ in range(150):
             w = self._random_witness(ctx.rng)
             f, d = self.oracle_replay(ctx, w)
